@@ -79,6 +79,8 @@ OutFail   == Cases[c].outFail
 InFail    == Cases[c].inFail
 InAbsent  == Cases[c].inAbsent = 1
 OutAbsent == Cases[c].outAbsent = 1
+\* 1 if input requests cannot be observed (runs of the command line binary): they emit no event
+InSilent  == Cases[c].inSilent = 1
 
 -----------------------------------------------------------------------------
 (* Matching brackets, computed once per case by a stack scan.               *)
@@ -168,7 +170,7 @@ OutRefused ==
 In == /\ Running /\ Op = "," /\ ~InAbsent /\ InFail # ip - 1
       /\ LET b == IF ip <= Len(Input) THEN Input[ip] ELSE 0 IN
            Advance(pc + 1, ptr, Put(ptr, CFromByte(b, W)), ip + 1, outN,
-                   <<"in", IF ip <= Len(Input) THEN Input[ip] ELSE -1>>)
+                   IF InSilent THEN NoEv ELSE <<"in", IF ip <= Len(Input) THEN Input[ip] ELSE -1>>)
 InFailed == /\ Running /\ Op = "," /\ ~InAbsent /\ InFail = ip - 1
             /\ Finish("stopped", <<"infail", 0>>)
 InMissing == /\ Running /\ Op = "," /\ InAbsent
